@@ -218,7 +218,39 @@ def build_coq(clean=False):
         if clean:
             sh("make clean", 300, cwd=COQ)
         rc, out = sh("timeout 3000 make -j%d -k" % (os.cpu_count() or 4), 3100, cwd=COQ)
+        if rc != 0:
+            # a file that failed to compile keeps the .vo of the last good build (coqc writes none on failure); remove it, so
+            # that nothing can be checked against what the file used to say
+            for m in re.finditer(r"\*\*\* \[Makefile[^\]]*: (theories/\S+?\.vo)\] Error", out):
+                stale = os.path.join(COQ, m.group(1))
+                if os.path.exists(stale):
+                    os.remove(stale)
         return rc, out
+
+
+def stale_objects(relv):
+    """files in the import closure of theories/<relv> whose .vo is missing or older than the source or than the .vo of a file
+    they import (make would have rebuilt them had their dependencies compiled): Props must not be checked against these"""
+    bad = []
+    clo = import_closure(relv)
+    T = os.path.join(COQ, "theories")
+    mt = {}
+    for r in clo:
+        vo = os.path.join(T, r[:-2] + ".vo")
+        mt[r] = os.path.getmtime(vo) if os.path.exists(vo) else None
+    for r in sorted(clo):
+        if r == relv:
+            continue
+        if mt[r] is None:
+            bad.append(r + ": not compiled")
+        elif mt[r] < os.path.getmtime(os.path.join(T, r)):
+            bad.append(r + ": object file older than its source")
+        else:
+            for d in import_closure(r):
+                if d != r and mt.get(d) is not None and mt[d] > mt[r] + 1e-6:
+                    bad.append("%s: object file older than that of %s" % (r, d))
+                    break
+    return bad
 
 
 def import_closure(relv):
@@ -293,9 +325,13 @@ def check_props(pid):
     code = strip_coq_comments(txt)
     names = re.findall(r"^\s*(?:Theorem|Corollary)\s+([A-Za-z0-9_']+)", code, re.M)
     with BuildLock():
+        stale = stale_objects("Props/%s.v" % pid)
         rc, out = sh(
             "timeout 900 coqc -Q theories Batchie -w -notation-overridden,-deprecated-hint-without-locality "
             "theories/Props/%s.v" % pid, 1000, cwd=COQ)
+    if stale:
+        rc = rc or 1
+        out = "STALE OBJECT FILES in the import closure (a dependency no longer compiles):\n  " + "\n  ".join(stale[:12]) + "\n" + out
     res = dict(ok=(rc == 0), obligations=len(names), output=out[-4000:], theorems=[], failed_theorem=None)
     # parse Print Assumptions blocks in order
     blocks = re.split(r"(?m)^(?=Closed under the global context|Axioms:)", out)
